@@ -80,10 +80,10 @@ package slug
 //@   ghost $rejected Bool = false
 //@   requires pre.walk: segUnder(Clean(path), Clean(src))
 //@   closure-invariant C05.walk.src: src == root || p.dereference
-//@   at-call (*archive/tar.Writer).WriteHeader C05.link-kept-only-if-valid: a1.Typeflag == tar.TypeSymlink && len(p.allowSymlinkTargets) == 0 ==>
-//@       segUnder(ite(isAbs(a1.Linkname), Clean(a1.Linkname), Join(Dir(ite(isAbs(path), path, Join(Abs(root), path))), a1.Linkname)), Abs(root))
-//@   at-call (*archive/tar.Writer).WriteHeader C05.link-valid-at-archive-position: a1.Typeflag == tar.TypeSymlink && len(p.allowSymlinkTargets) == 0 && !isAbs(a1.Linkname) ==>
-//@       segUnder(Join(Dir(Join(Abs(root), Rel(root, Replace(path, src, dst, 1)))), a1.Linkname), Abs(root))
+//@   at-call (*archive/tar.Writer).WriteHeader C05.link-valid-at-archive-position: a1.Typeflag == tar.TypeSymlink && len(p.allowSymlinkTargets) == 0 ==>
+//@       segUnder(ite(isAbs(a1.Linkname), Clean(a1.Linkname),
+//@                    Join(Dir(ite(isAbs(Replace(path, src, dst, 1)), Replace(path, src, dst, 1), Join(Abs(root), Replace(path, src, dst, 1)))), a1.Linkname)), Abs(root))
+//@   at-call (*archive/tar.Writer).WriteHeader C05,C02.header-name: a1.Name == Rel(root, Replace(path, src, dst, 1)) + ite(modeDirBit(fileMode(info)), "/", "")
 //@   at-call os.Open C05.body-from-inside: segUnder(Clean(a0), Clean(src))
 //@   ensures C05.external-needs-deref: $rejected && !p.dereference && !AbsErr(root) ==> dyntype(rerr, "*slug.IllegalSlugError")
 //@   decreases C19.terminates: maxExternalLinkHops - len(dereferenced)
